@@ -52,6 +52,8 @@ func (v *violCtx) spendTx(x cand, valid bool, outValue uint64) *wire.Tx {
 	if !v.c.s.B.Spend(tx, 0, x.coin.Script, valid) {
 		panic("sim: cannot spend")
 	}
+	v.c.pendingSign = append(v.c.pendingSign, pending{tx, x, valid})
+	v.c.s.B.SpendSigned(tx, 0, []wire.TxOut{{Value: x.coin.Value, PkScript: x.coin.Script}}, valid)
 	return tx
 }
 
